@@ -255,6 +255,13 @@ def run_row(row, obs):
             pass
         write(tw.encode(dict(type='XFER_SEGMENT', flags=3, transfer_id=77, ext=[tw.transfer_length_ext(4)], data=b'evil')))
         sim.settle(20000)
+        # ... nor may the refused peer simply try its SESS_INIT again
+        write(tw.encode(dict(type='SESS_INIT', keepalive=0, segment_mru=2 ** 20, transfer_mru=2 ** 30, nodeid=PEER_NODE.encode('utf8'), ext=[])))
+        sim.settle(20000)
+        write(tw.encode(dict(type='XFER_SEGMENT', flags=3, transfer_id=78, ext=[tw.transfer_length_ext(4)], data=b'evi2')))
+        sim.settle(20000)
+        if end.state() == 'established':
+            problems.append(('leak', 'a repeated SESS_INIT turned a refused session (%s) into an established one' % outcome, {}))
         msgs2, _status = seen()
         new = msgs2[n_before:]
         if any(m['type'] == 'XFER_SEGMENT' for m in new):
